@@ -53,7 +53,9 @@ Alphabet(f) ==
   ELSE IF f = "climate" THEN {<<"set_threshold", 1>>, <<"set_threshold", 2>>, <<"set_link_density", 1>>,
                               <<"set_link_density", 2>>, <<"set_non_local", 0>>, <<"set_non_local", 1>>}
   ELSE IF f = "climatedata" THEN {<<"set_window", 1>>, <<"set_window", 2>>, <<"set_global_window", 0>>}
-  ELSE {<<"embedding", 1>>, <<"embedding", 2>>, <<"normalize_original_data", 0>>}
+  \* surrogates: twin_surrogates re-embeds as a side effect of a QUERY, so the embedding is not part of the
+  \* abstract state; the one state change is the in-place normalisation of the stored data
+  ELSE {<<"normalize_original_data", 0>>}
 
 Apply(f, a, m) ==
   LET name == m[1]  v == m[2] IN
